@@ -424,7 +424,7 @@ func (c ecase) project(f int) ecase {
 
 type e2eStats struct {
 	evals, nontrivial, worlds, failing, shuffleEvals, configs, misaligned, misalignedCDB, reduced, beyond int64
-	cacheEvals, cacheSeqs, cacheHits, cacheWorlds                                                         int64
+	cacheEvals, cacheSeqs, cacheHits, cacheWorlds, cacheAlsoPlain                                         int64
 	bySize                                                                                                [6]int64
 }
 
